@@ -74,6 +74,14 @@ def check(prop, cfg, tier, seed, replay=None):
     streams_out = []
     known = C.load_known()
 
+    # ---- 0. per-property steps that must precede the harness build (e.g. generating an
+    #         instrumented copy of a /repo file that the overlay will compile instead of it)
+    for hook in cfg.get("pre_build_hooks", []):
+        try:
+            hook()
+        except Exception as e:  # noqa
+            tie_broken.append({"what": "pre-build step failed: %s" % hook.__name__, "detail": repr(e)})
+
     # ---- 1. harness builds from the current working tree (also provides `consts`)
     binaries = {}
     mods = sorted({s["mod"] for s in cfg.get("streams", []) if s.get("kind", "bin") == "bin"} | set(cfg.get("gen_modules", [])))
